@@ -591,6 +591,12 @@ class Interp:
                 for c in self.repo.mro(ci):
                     if attr in c.class_attrs:
                         return self.eval(c.class_attrs[attr], Env(c.module))
+                if ci.is_dataclass:
+                    for fname, _d, _f in ci.dc_fields:
+                        if fname == attr:
+                            v = self.default_field_value(ci, attr)
+                            base.fields[attr] = v
+                            return v
             raise Unsupported(f"attribute {base.cls}.{attr} not modelled (object {base.label})")
         if isinstance(base, SRef):
             return self.heap_get(base, attr)
@@ -644,6 +650,33 @@ class Interp:
             raise Unsupported(f"function attribute {attr}")
         # str / list / dict / ... methods
         return BoundMethod(base, attr)
+
+    def default_field_value(self, ci: ClassInfo, attr: str):
+        """An unconstrained value for a dataclass field the harness did not set, typed by the field's annotation."""
+        ann = None
+        for item in ci.node.body:
+            if isinstance(item, ast.AnnAssign) and isinstance(item.target, ast.Name) and item.target.id == attr:
+                ann = item.annotation
+        c = self.ctx
+
+        def mk(a, nm):
+            src = ast.unparse(a) if a is not None else "Any"
+            if src == "str":
+                return SStr(c.fresh_str(nm))
+            if src == "int":
+                return SInt(c.fresh_int(nm))
+            if src == "bool":
+                return SBool(c.fresh_bool(nm))
+            if src == "bytes":
+                return SBytes(c.fresh_str(nm))
+            if src.startswith("Optional[") and isinstance(a, ast.Subscript):
+                return SOpt(c.fresh_bool(nm + "_none"), mk(a.slice, nm))
+            if src.startswith(("Dict[", "dict")):
+                return TheoryObj("symdict", label=nm)
+            if src.startswith(("List[", "list")):
+                return TheoryObj("symiter", label=nm, fields={"mk": lambda I2: SOpaque("pyobject", I2.ctx.fresh("elem", usort_("pyobject")))})
+            return SOpaque("pyobject", c.fresh(nm, usort_("pyobject")))
+        return mk(ann, f"{ci.name}.{attr}")
 
     def e_Subscript(self, node, env):
         base = self.force(self.eval(node.value, env))
@@ -825,18 +858,11 @@ class Interp:
 
     def symiter_comprehension(self, node, env, src: TheoryObj):
         """[elt for x in S if conds] over a collection S of unknown size: another such collection.
-        arbitrary element: elt(a) for an arbitrary a of S passing the conditions (path-conditioned);
-        witnesses: (elt(w), inlist(w) and conds(w)); non-emptiness: free, implied by a member witness, implies S non-empty."""
+        The element expression is evaluated ONCE, now, on an arbitrary element of S passing the conditions (so that every
+        exception and side effect an element can cause happens where Python would raise it); that value is the arbitrary
+        element of the result.  witnesses: (elt(w), inlist(w) and conds(w)); non-emptiness: free, implied by a member
+        witness, implies S non-empty."""
         g = node.generators[0]
-
-        def mk(I):
-            a = src.fields["mk"](I)
-            e2 = Env(env.module, parent=env, fn=env.fn)
-            I.assign(g.target, a, e2)
-            for cond in g.ifs:
-                if not I.decide_truth(I.eval(cond, e2)):
-                    raise PathEnd()
-            return I.eval(node.elt, e2)
         wit = []
         for w, inlist in src.fields.get("witnesses", []):
             e2 = Env(env.module, parent=env, fn=env.fn)
@@ -845,9 +871,32 @@ class Interp:
             for cond in g.ifs:
                 conds.append(pyops.bool_z(pyops.truth(self.eval(cond, e2))))
             wit.append((self.eval(node.elt, e2), z3.And(inlist, *conds) if conds else inlist))
-        out = TheoryObj("symiter", fields={"mk": mk, "witnesses": wit, "parent": src})
+        out = TheoryObj("symiter", fields={"witnesses": wit, "parent": src})
         ne = self.symiter_nonempty(out)
-        self.ctx.assume(z3.Implies(ne, self.symiter_nonempty(src)))
+        if g.ifs:
+            self.ctx.assume(z3.Implies(ne, self.symiter_nonempty(src)))
+        else:
+            self.ctx.assume(ne == self.symiter_nonempty(src))   # no filter: one result element per source element
+        rep = {}
+        # is there an element of S that passes the filter?  (free; if so, evaluate the element expression on it)
+        if self.ctx.decide(ne, "comprehension-nonempty"):
+            a = src.fields["mk"](self)
+            for pred in src.fields.get("all_satisfy", []):
+                self.ctx.assume(pred(self, a))
+            e2 = Env(env.module, parent=env, fn=env.fn)
+            self.assign(g.target, a, e2)
+            for cond in g.ifs:
+                self.ctx.assume(pyops.bool_z(self.truth(self.eval(cond, e2))))
+            rep["src"] = a
+            rep["val"] = self.eval(node.elt, e2)
+            out.fields["rep_src"] = a
+            out.fields["rep"] = rep["val"]
+
+        def mk(I):
+            if "val" not in rep:
+                raise PathEnd()   # the collection is empty on this path: it has no arbitrary element
+            return rep["val"]
+        out.fields["mk"] = mk
         return out
 
     def eval_gen_element(self, gen: TheoryObj, item):
@@ -1672,6 +1721,10 @@ class Interp:
         symbolic_iter = isinstance(itv, (SSeq, SSetZ, SMapZ)) or (isinstance(itv, tuple) and len(itv) == 2 and itv and itv[0] == "__range__")
         if spec is not None and not spec.unroll:
             return self._for_cut(node, env, spec, itv)
+        if isinstance(itv, TheoryObj) and itv.theory == "symiter" and spec is None:
+            # no contract for this loop: cut it with the trivial invariant (everything it assigns or mutates is havocked)
+            self.ctx.use(f"loop at line {node.lineno} has no invariant: cut with 'true' (all assigned state havocked)")
+            return self._for_cut(node, env, LoopSpec(invariant=lambda I, e, it: [], name="uncontracted"), itv)
         if symbolic_iter:
             raise Unsupported(f"for loop at line {node.lineno} over a collection of unknown size needs an invariant")
         broke = False
@@ -1793,6 +1846,11 @@ class Interp:
 
 
 # ---------------------------------------------------------------------------------------------
+def usort_(name):
+    from .values import usort
+    return usort(name)
+
+
 class _Missing:
     pass
 
